@@ -212,12 +212,14 @@ def judge_monitor(prop, res):
     for rec in res["log"]:
         m = rec["mon"]
         dg = m.get("scipy_dg_entries")
-        if (prev_dg is not None and dg is not None and dg < prev_dg
+        if (prev_dg is not None and dg is not None and dg != prev_dg
                 and not m.get("filters_mutated_by_optyx") and not m.get("filters_mutated_by_other")):
-            # what SciPy had already shown the application is forgotten after this op, and nobody
+            # SciPy's record of what it has shown the application differs after this op, and nobody
             # touched the warning filters during it (a filter change makes Python drop whole
-            # registries lazily, which would not be optyx's doing): the entry was removed by hand
-            out.append(_finding(prop, "scipy-warning-memory-erased", rec, f"{prev_dg} -> {dg} 'delta_grad' entries in SciPy's once-per-location registries"))
+            # registries lazily, which would not be optyx's doing): an entry was removed by hand,
+            # or one recorded while optyx swallowed the warning was left behind
+            kind = "erased" if dg < prev_dg else "left-behind"
+            out.append(_finding(prop, f"scipy-warning-memory-{kind}", rec, f"{prev_dg} -> {dg} 'delta_grad' entries in SciPy's once-per-location registries"))
         prev_dg = dg
         if not m["showwarning_ok"]:
             out.append(_finding(prop, "showwarning-not-restored", rec, "warnings.showwarning is not the hook installed before the call"))
